@@ -984,11 +984,11 @@ def self_test():
 
 
 SUBCHECKS = [
-    SubCheck("tri_surface", tri_case(), fn_surface, quick=640, thorough=600),
-    SubCheck("poly_surface", poly_case(), fn_surface, quick=560, thorough=500),
-    SubCheck("tet_volume", tet_case(), fn_tets, quick=320, thorough=300),
-    SubCheck("interpolation", interp_case(), fn_interp, quick=320, thorough=250),
-    SubCheck("nonconvex_face", nonconvex_case(), fn_nonconvex, quick=240, thorough=200),
+    SubCheck("tri_surface", tri_case(), fn_surface, quick=480, thorough=600),
+    SubCheck("poly_surface", poly_case(), fn_surface, quick=420, thorough=500),
+    SubCheck("tet_volume", tet_case(), fn_tets, quick=240, thorough=300),
+    SubCheck("interpolation", interp_case(), fn_interp, quick=240, thorough=250),
+    SubCheck("nonconvex_face", nonconvex_case(), fn_nonconvex, quick=200, thorough=200),
 ]
 
 def kf_nonconvex_faces(case, violation):
